@@ -105,6 +105,30 @@ def gen_case(seed, i, tier, focus='default', loading=False, tag='seq'):
     return case
 
 
+def peer_gen(prop, every=5):
+    """extra generator: histories in which a peer process commits a write behind an optimistic session's back
+    (fault kind 'peer write', see op_peer): the later sessions are plain optimistic ones, the peer's write comes
+    early in them (before the session's first flush takes the database lock) and rows are read again afterwards"""
+    def gen(seed, i, tier):
+        if i % every:
+            return None
+        c = gen_case(seed, i, tier, focus=('keys', 'reads', 'default')[i // every % 3], tag=prop.lower() + 'peer')
+        r = Rng(derive(seed, prop.lower(), 'peer', i), 'ins')
+        if len(c['sessions']) < 2:
+            c['sessions'].append({'opts': {}, 'ops': [], 'end': 'exit'})
+        for s in c['sessions'][1:]:
+            s['opts'] = {}
+            s['ops'] = [op for op in s['ops'] if op[0] != 'partial']
+            s['ops'].insert(r.below(min(3, len(s['ops'])) + 1), ['peer', r.below(1000), r.below(1000), r.below(1000)])
+            for _ in range(r.randint(1, 2)):
+                s['ops'].append([r.choice(['r_select', 'r_select', 'r_get', 'r_attr', 'set']), r.below(1000), r.below(1000),
+                                 r.below(1000)])
+        c['knobs'].pop('dbkind', None)
+        c['flush_policy'] = 'never'
+        return c
+    return gen
+
+
 COMPONENTS = {
     'real': ['pony.orm.core (Entity, Attribute, Set, SessionCache, Query)', 'pony.orm.sqltranslation / sqlbuilding',
              'SQLite provider + sqlite3 on a tmpfs file'],
